@@ -2,6 +2,11 @@ module verifharness
 
 go 1.13
 
-require github.com/DOSNetwork/core v0.0.0
+require (
+	github.com/DOSNetwork/core v0.0.0
+	github.com/dedis/kyber v0.0.0-20181211160045-59837fd0c24b
+	github.com/ethereum/go-ethereum v1.10.9
+	github.com/golang/protobuf v1.4.3
+)
 
 replace github.com/DOSNetwork/core => /repo
